@@ -682,3 +682,166 @@ Definition rd_verdict (c : rd_case) : verdict :=
       if rd_same c && ok0 && okf && okd && oka then Agree else Differ
   | _, _, _, _ => ImplError
   end.
+
+(* ---- C13: modes ---- *)
+From Lekkersim Require Import Modes.
+
+(* expansion of one model: base matrices per sweep point (single-mode model, same parameters) and the
+   expanded matrices, rows/columns ordered (mode i, base pin n) -> i*N + n by looking the pins up by
+   their names in the expanded model *)
+Record exp_case := { xp_n : nat; xp_np : nat; xp_base : obs (list lmx); xp_obs : obs (list lmx) }.
+
+Definition exp_verdict (c : exp_case) : verdict :=
+  match xp_base c, xp_obs c with
+  | Obs bs, Obs os =>
+      let d := (xp_np c * xp_n c)%nat in
+      if Nat.eqb (List.length bs) (List.length os) &&
+         all2 (fun b o => rows_close tol12 d d (expand_S (xp_n c) (mxl b)) o) bs os
+      then Agree else Differ
+  | Obs _, Raised => ImplError
+  | Raised, Raised => BothReject
+  | Raised, Obs _ => ModelUndefined
+  end.
+
+(* circuits of mode-expanded blocks wired by connect_all *)
+Record mm_comp := { mc_id : nat; mc_n : nat; mc_S : lmx; mc_modes : list string }.
+Record mm_case := {
+  mm_comps : list mm_comp;
+  mm_links : list (nat * nat * nat * nat);     (* connect_all (c1, base pin p1, c2, base pin p2) *)
+  mm_expo  : list (nat * nat * string);        (* exposed: component, base pin, mode *)
+  mm_obs   : obs lmx
+}.
+
+Fixpoint sindex (m : string) (l : list string) : option nat :=
+  match l with
+  | [] => None
+  | x :: r => if String.eqb x m then Some 0%nat else option_map S (sindex m r)
+  end.
+
+Definition mm_find (c : mm_case) (id : nat) : option mm_comp :=
+  find (fun x => Nat.eqb (mc_id x) id) (mm_comps c).
+
+Definition mm_spin (c : mm_case) (id p : nat) (m : string) : option spin :=
+  match mm_find c id with
+  | Some x => match sindex m (mc_modes x) with
+              | Some i => Some (id, expand_idx (mc_n x) i p)
+              | None => None
+              end
+  | None => None
+  end.
+
+Fixpoint opt_all {A} (l : list (option A)) : option (list A) :=
+  match l with
+  | [] => Some []
+  | Some x :: r => option_map (cons x) (opt_all r)
+  | None :: _ => None
+  end.
+
+(* the multi-mode circuit itself: expanded blocks, one connection per common mode *)
+Definition mm_full_net (c : mm_case) : option (netlist BQCf) :=
+  let cs := flat_map (fun l => match l with (c1, p1, c2, p2) =>
+              match mm_find c c1, mm_find c c2 with
+              | Some x1, Some x2 =>
+                  map (fun m => match mm_spin c c1 p1 m, mm_spin c c2 p2 m with
+                                | Some a, Some b => Some (a, b)
+                                | _, _ => None
+                                end) (common_modes (mc_modes x1) (mc_modes x2))
+              | _, _ => [None]
+              end end) (mm_links c) in
+  let ex := map (fun t => match t with (id, p, m) => mm_spin c id p m end) (mm_expo c) in
+  match opt_all cs, opt_all ex with
+  | Some cs', Some ex' =>
+      Some {| comps := map (fun x => lst_of_comp {| c_id := mc_id x;
+                                                    c_n := (List.length (mc_modes x) * mc_n x)%nat;
+                                                    c_S := expand_S (mc_n x) (mxl (mc_S x)) |}) (mm_comps c);
+              conns := cs'; expo := ex' |}
+  | _, _ => None
+  end.
+
+(* the single-mode circuit seen by mode m: the components carrying m, the links whose two ends
+   both carry m, the exposures of mode m *)
+Definition has_mode (c : mm_case) (id : nat) (m : string) : bool :=
+  match mm_find c id with Some x => smem m (mc_modes x) | None => false end.
+
+Definition mm_mode_net (c : mm_case) (m : string) : netlist BQCf :=
+  {| comps := map (fun x => lst_of_comp {| c_id := mc_id x; c_n := mc_n x; c_S := mxl (mc_S x) |})
+                  (filter (fun x => smem m (mc_modes x)) (mm_comps c));
+     conns := flat_map (fun l => match l with (c1, p1, c2, p2) =>
+                 if has_mode c c1 m && has_mode c c2 m then [((c1, p1), (c2, p2))] else [] end)
+                 (mm_links c);
+     expo := flat_map (fun t => match t with (id, p, m') =>
+                 if String.eqb m' m then [(id, p)] else [] end) (mm_expo c) |}.
+
+Definition mm_sched (n : netlist BQCf) := seq_sched (List.length (comps n)).
+
+Definition mm_indep (c : mm_case) (o : lmx) : option bool :=
+  let modes := sdedup (map (fun t => snd t) (mm_expo c)) in
+  let tabs := map (fun m => (m, let n := mm_mode_net c m in solve n (mm_sched n))) modes in
+  if existsb (fun t => match snd t with Err _ => true | Ok _ => false end) tabs then None else
+  let ex := mm_expo c in
+  let look := fun m => match find (fun t => String.eqb (fst t) m) tabs with
+                       | Some (_, Ok T) => Some T | _ => None end in
+  Some (Nat.eqb (List.length o) (List.length ex) &&
+  forallb (fun i => let r := nth i o [] in
+     Nat.eqb (List.length r) (List.length ex) &&
+     forallb (fun j =>
+        match nth_error ex i, nth_error ex j with
+        | Some (ci, pi, mi), Some (cj, pj, mj) =>
+            let expected := if String.eqb mi mj
+                            then match look mi with Some T => coeff T (ci, pi) (cj, pj) | None => c0 end
+                            else c0 in
+            cclose tol9 expected (nth j r c0)
+        | _, _ => false
+        end) (seq 0 (List.length ex))) (seq 0 (List.length ex))).
+
+Definition mm_verdict (c : mm_case) : verdict :=
+  match mm_full_net c with
+  | None => (match mm_obs c with Raised => BothReject | Obs _ => ModelUndefined end)
+  | Some n =>
+      let full := obs_verdict (solve n (mm_sched n)) (expo n) (mm_obs c) in
+      match full, mm_obs c with
+      | Agree, Obs o => match mm_indep c o with
+                        | Some true => Agree
+                        | Some false => Differ
+                        | None => ModelUndefined
+                        end
+      | v, _ => v
+      end
+  end.
+
+(* queries: the base names / mode names / pins reported for a model and for a placed structure *)
+Record qry_case := {
+  q_pins : list (string * option string);                 (* the pins the object has *)
+  q_bases : obs (list string);                            (* get_pin_basenames() *)
+  q_modes : list (string * obs (list (option string)));   (* per queried base: get_pin_modes / _modenames *)
+  q_pinsof : list (string * obs (list (string * option string)))   (* Structure.get_pins(base) *)
+}.
+
+Definition mkpin (t : string * option string) : pin := {| basename := fst t; mode_name := snd t |}.
+Definition ostr_eqb (a b : option string) : bool :=
+  match a, b with Some x, Some y => String.eqb x y | None, None => true | _, _ => false end.
+Definition sset_eqb (a b : list string) : bool :=
+  forallb (fun x => smem x b) a && forallb (fun x => smem x a) b && Nat.eqb (List.length a) (List.length b).
+
+(* equal as multisets *)
+Definition perm_eqb {A B} (f : A -> B -> bool) (a : list A) (b : list B) : bool :=
+  Nat.eqb (List.length a) (List.length b) &&
+  forallb (fun y => Nat.eqb (List.length (filter (fun x => f x y) a))
+                            (List.length (filter (fun y' => existsb (fun x => f x y && f x y') a) b))) b &&
+  forallb (fun x => existsb (f x) b) a.
+
+Definition qry_verdict (c : qry_case) : verdict :=
+  let pins := map mkpin (q_pins c) in
+  let raised := match q_bases c with Raised => true | _ => false end ||
+                existsb (fun t => match snd t with Raised => true | _ => false end) (q_modes c) ||
+                existsb (fun t => match snd t with Raised => true | _ => false end) (q_pinsof c) in
+  if raised then ImplError else
+  let okb := match q_bases c with Obs l => sset_eqb l (pin_basenames pins) | Raised => false end in
+  let okm := forallb (fun t => match snd t with
+                               | Obs l => perm_eqb ostr_eqb l (pin_modes (fst t) pins)
+                               | Raised => false end) (q_modes c) in
+  let okp := forallb (fun t => match snd t with
+                               | Obs l => perm_eqb (fun a b => String.eqb (fst a) (basename b) && ostr_eqb (snd a) (mode_name b))
+                                                   l (pins_of_base (fst t) pins)
+                               | Raised => false end) (q_pinsof c) in
+  if okb && okm && okp then Agree else Differ.
